@@ -9,15 +9,101 @@ package db
 //@ pure idOf(v *vaa.VAA) = struct("vaa.VAAID", v.EmitterChain, v.EmitterAddress, v.TargetChain, v.Sequence)
 
 //@ func (d *Database) GetSignedVAABytes(id vaa.VAAID) (b []byte, err error)
-//@   assume-contract
+//@   props C12 C01 C14
+//@   requires d != nil
 //@   ensures [found] err == nil ==> stored(d, id) && b == storedBytes(d, id)
 //@   ensures [not-found] err == ErrVAANotFound ==> !stored(d, id)
+//@   ensures [absent-is-not-found] !stored(d, id) ==> err == ErrVAANotFound
+//@   replay db_streams.go.tmpl
+//@   ensures [read-only] storeUnchanged(d)
+//@   modifies lib:db.store
 
 //@ func (d *Database) StoreSignedVAA(v *vaa.VAA) (err error)
-//@   assume-contract
+//@   props C12 C01
+//@   requires d != nil
+//@   requires vaa.wfVAA(v) && len(v.Signatures) <= 255
 //@   requires [signed] v != nil && len(v.Signatures) > 0
 //@   requires [quorum-signed] marked("quorumSigned", v)
 //@   ensures [stored] err == nil ==> stored(d, idOf(v)) && vaa.encodes(storedBytes(d, idOf(v)), v)
 //@   ensures [failed-unchanged] err != nil ==> storeUnchanged(d)
 //@   ensures [others] storeUnchangedExcept(d, idOf(v))
 //@   modifies lib:db.store
+
+// ---------------------------------------------------------------- streams (C12)
+
+// The store's representation invariant: every stored value is a signed VAA whose sequence
+// number is the one in its key. StoreSignedVAA is the only writer and establishes it
+// ([stored]: the bytes under idOf(v) encode v). Environment: no emitter's sequence counter
+// has reached 2^64-1 (the gap scan counts up to the highest sequence with a uint64).
+//@ pred wfStore(d *Database) = forall id vaa.VAAID :: stored(d, id) ==> vaa.seqOf(storedBytes(d, id)) == id.Sequence && id.Sequence < 18446744073709551615
+// membership of one (emitter chain, emitter address, target chain) stream
+//@ pure streamId(p vaa.VAAID, s uint64) = struct("vaa.VAAID", p.EmitterChain, p.EmitterAddress, p.TargetChain, s)
+//@ pred inStream(d *Database, p vaa.VAAID, s uint64) = stored(d, streamId(p, s))
+
+// Gap detection for one stream: the sequences reported missing are exactly those between
+// firstSeq and lastSeq that the stream does not hold; lastSeq is the stream's highest
+// sequence; VAAs of any other emitter, target chain or stream do not matter.
+//@ func (d *Database) FindEmitterSequenceGap(stream vaa.VAAID) (resp []uint64, firstSeq uint64, lastSeq uint64, err error)
+//@   props C12
+//@   requires d != nil && wfStore(d)
+//@   replay db_streams.go.tmpl
+//@   ensures [reported-are-missing] err == nil ==> forall j in 0..len(resp) :: !inStream(d, stream, resp[j]) && firstSeq <= resp[j] && resp[j] <= lastSeq
+//@   ensures [stream-within-bounds] err == nil ==> forall s uint64 :: inStream(d, stream, s) ==> firstSeq <= s && s <= lastSeq
+//@   ensures [all-missing-reported] err == nil ==> forall s uint64 :: firstSeq <= s && s <= lastSeq && !inStream(d, stream, s) ==> exists j in 0..len(resp) :: resp[j] == s
+//@   ensures [last-is-present] err == nil && lastSeq != 0 ==> inStream(d, stream, lastSeq)
+//@   ensures [read-only] storeUnchanged(d)
+//@   modifies lib:db.store, fresh map[uint64]bool, fresh vaa.VAA.*, fresh vaa.Signature.*, fresh lib:bytes.Reader.s, fresh lib:bytes.Reader.i
+//@   at [seqs[v.Sequence] = true]: assert [sequence-of-the-key] stored(d, iterKey(it)) && val == storedBytes(d, iterKey(it)) && v.Sequence == iterKey(it).Sequence
+//@   at [first := false]: assert [stream-all-recorded] forall s uint64 :: inStream(d, stream, s) ==> indom(seqs, s)
+//@   loop [it.ValidForPrefix(prefix)]:
+//@     invariant [self] d != nil && wfStore(d) && storeUnchanged(d) && seqs != nil
+//@     invariant [visited-recorded] forall id vaa.VAAID :: iterVisited(it, id) ==> indom(seqs, id.Sequence)
+//@     invariant [stream-only] forall s in dom(seqs) :: inStream(d, stream, s) && seqs[s]
+//@   loop [range seqs]:
+//@     invariant [first-zero] firstSeq == 0 && !first
+//@     invariant [recorded-in-stream] forall s in dom(seqs) :: inStream(d, stream, s)
+//@     invariant [stream-all-recorded] forall s uint64 :: inStream(d, stream, s) ==> indom(seqs, s)
+//@     invariant [all-true] forall s in dom(seqs) :: seqs[s]
+//@     invariant [max-so-far] forall s in dom(seqs) :: visited(s) ==> s <= lastSeq
+//@     invariant [max-present] lastSeq == 0 || indom(seqs, lastSeq)
+//@   loop [i <= lastSeq]:
+//@     invariant [missing-so-far] forall j in 0..len(resp) :: !indom(seqs, resp[j]) && firstSeq <= resp[j] && resp[j] < i
+//@     invariant [range] firstSeq <= i && i <= lastSeq + 1 && lastSeq < 18446744073709551615
+//@     invariant [recorded-in-stream] forall s in dom(seqs) :: inStream(d, stream, s)
+//@     invariant [all-missing-so-far] forall s uint64 :: firstSeq <= s && s < i && !indom(seqs, s) ==> exists j in 0..len(resp) :: resp[j] == s
+//@     invariant [stream-all-recorded] forall s uint64 :: inStream(d, stream, s) ==> indom(seqs, s)
+//@     invariant [all-true] forall s in dom(seqs) :: seqs[s]
+//@     decreases lastSeq - i + 1
+
+// Governance batch: exactly the stored VAAs of the governance emitter (any target chain)
+// whose sequence is among the requested ones, each with the target chain and sequence of its
+// key and the bytes stored under that key; VAAs of any other emitter never appear.
+//@ pure govId(c vaa.ChainID, a vaa.Address, t vaa.ChainID, s uint64) = struct("vaa.VAAID", c, a, t, s)
+//@ pred requested(sequences []uint64, s uint64) = exists k in 0..len(sequences) :: sequences[k] == s
+//@ func (d *Database) GetGovernanceVAABatch(governanceChainId vaa.ChainID, governanceEmitter vaa.Address, sequences []uint64) (out []*GovernanceVAA, err error)
+//@   props C12
+//@   requires d != nil
+//@   ensures [entries-are-stored-governance-vaas] err == nil ==> forall j in 0..len(out) :: out[j] != nil && allocated(out[j])
+//@     | && stored(d, govId(governanceChainId, governanceEmitter, out[j].TargetChain, out[j].Sequence))
+//@     | && out[j].VaaBytes == storedBytes(d, govId(governanceChainId, governanceEmitter, out[j].TargetChain, out[j].Sequence))
+//@     | && requested(sequences, out[j].Sequence)
+//@   replay db_streams.go.tmpl
+//@   ensures [every-requested-stored-vaa-returned] err == nil ==> forall t vaa.ChainID :: forall k in 0..len(sequences) :: stored(d, govId(governanceChainId, governanceEmitter, t, sequences[k])) ==>
+//@     | exists j in 0..len(out) :: out[j].TargetChain == t && out[j].Sequence == sequences[k]
+//@   ensures [read-only] storeUnchanged(d)
+//@   modifies lib:db.store, fresh GovernanceVAA.*, fresh vaa.VAAID.*
+//@   nopanic
+//@   at [vaaBytes, err := it.Item().ValueCopy(nil)]: assert [g1] sequence == iterKey(it).Sequence
+//@   at [vaaBytes, err := it.Item().ValueCopy(nil)]: assert [g2] targetChain == iterKey(it).TargetChain
+//@   at [vaaBytes, err := it.Item().ValueCopy(nil)]: assert [g3] stored(d, iterKey(it)) && iterKey(it).EmitterChain == governanceChainId && iterKey(it).EmitterAddress == governanceEmitter
+//@   at [vaaBytes, err := it.Item().ValueCopy(nil)]: assert [g4] iterKey(it) == govId(governanceChainId, governanceEmitter, targetChain, sequence)
+//@   at [vaaBytes, err := it.Item().ValueCopy(nil)]: assert [g5] requested(sequences, sequence)
+//@   loop [range sequences]:
+//@     invariant [not-yet] forall k in 0..$i :: sequences[k] != seq
+//@   loop [it.ValidForPrefix(prefixBytes)]:
+//@     invariant [self] d != nil && storeUnchanged(d)
+//@     invariant [entries] forall j in 0..len(vaas) :: vaas[j] != nil && allocated(vaas[j])
+//@       | && stored(d, govId(governanceChainId, governanceEmitter, vaas[j].TargetChain, vaas[j].Sequence))
+//@       | && vaas[j].VaaBytes == storedBytes(d, govId(governanceChainId, governanceEmitter, vaas[j].TargetChain, vaas[j].Sequence))
+//@       | && requested(sequences, vaas[j].Sequence)
+//@     invariant [visited-returned] forall id vaa.VAAID :: iterVisited(it, id) && requested(sequences, id.Sequence) ==> exists j in 0..len(vaas) :: vaas[j].TargetChain == id.TargetChain && vaas[j].Sequence == id.Sequence
